@@ -404,6 +404,7 @@ func runC20(c *Ctx) {
 	c.Clause("C20.6 probe credit, which bypasses the congestion check in SendMode, is written only by the timeout / ACK / send / drop paths and is reset by every processed ACK")
 	c.Clause("C20.9 the packet numbers compared by the once-per-window guard come from one packet-number space")
 	c.Clause("C20.10 the multiplicative-decrease factors (renoBeta, beta, betaLastMax) lie strictly between 0 and 1, and every reduction in OnCongestionEvent is the window times such a factor or the cubic's after-loss window (itself the window times beta()); the number of emulated connections in beta() is the constant ≥ 1 (its setter has no caller)")
+	c.Clause("C20.11 the window a connection starts with (and returns to when the path changes) lies between the two-packet minimum and the maximum: minCongestionWindowPackets ≤ initialCongestionWindow ≤ MaxCongestionWindowPackets, NewCubicSender scales it by the datagram size it also installs, only the constructor writes the initial value")
 	c.NotCovered("the numeric inequalities over event histories")
 	c.NotCovered("cubic curve arithmetic beyond the sign of the decrease factors, and hybrid slow start")
 
@@ -417,6 +418,39 @@ func runC20(c *Ctx) {
 	c.rule("C20.7", func() { c20ECNOnlyForAdvancingAcks(c) })
 	c.rule("C20.8", func() { c20PacerElapsedTime(c) })
 	c.rule("C20.10", func() { c20DecreaseFactors(c) })
+	c.rule("C20.11", func() { c20InitialWindow(c) })
+}
+
+func c20InitialWindow(c *Ctx) {
+	const R = "C20.11"
+	minPk := c.konst(cong, "minCongestionWindowPackets")
+	ini := c.konst(cong, "initialCongestionWindow")
+	mcw := c.konst("internal/protocol", "MaxCongestionWindowPackets")
+	c.Check(constInt(minPk) <= constInt(ini), R, "const:minCongestionWindowPackets<=initialCongestionWindow", c.P.Pos(ini.Pos()), "a connection does not start below the two-packet floor")
+	c.Check(constInt(ini) <= constInt(mcw), R, "const:initialCongestionWindow<=MaxCongestionWindowPackets", c.P.Pos(ini.Pos()), "a connection does not start above the maximum window")
+	ctor := c.fn(cong, "", "NewCubicSender")
+	inner := c.obj(cong, "", "newCubicSender")
+	sig := inner.Type().(*types.Signature)
+	idx := map[string]int{}
+	for i := 0; i < sig.Params().Len(); i++ {
+		idx[sig.Params().At(i).Name()] = i
+	}
+	want := map[string]VP{
+		"initialMaxDatagramSize":     ParamV("initialMaxDatagramSize"),
+		"initialCongestionWindow":    BinV(token.MUL, ConstOf(ini), ParamV("initialMaxDatagramSize")),
+	}
+	calls := findInstrs(ctor, CallsTo(inner))
+	c.Floor(R, "NewCubicSender→newCubicSender", len(calls), 1)
+	for _, in := range calls {
+		args := in.(ssa.CallInstruction).Common().Args
+		for _, name := range []string{"initialMaxDatagramSize", "initialCongestionWindow"} {
+			i, has := idx[name]
+			c.Check(has && i < len(args) && want[name](args[i]), R, "arg:newCubicSender("+name+")", c.P.InstrPos(in),
+				"the initial window is the constant times the datagram size the sender is created with, so initial ≥ 2 × datagram size and ≤ maximum follow from the constants")
+		}
+	}
+	only := c.set([3]string{cong, "", "newCubicSender"})
+	c.checkWriters(R, c.fld(cong, "cubicSender", "initialCongestionWindow"), only, 1)
 }
 
 // constFrac reports whether v is a floating-point constant strictly between 0 and 1.
